@@ -100,8 +100,14 @@ let run_case acc ~(family : (string * string) list list) ~(use_readers : bool) (
   let sp = Rd.spec_create (Array.of_list (List.map (fun key -> (key, "")) spec_keys)) k in
   let failed = ref false in
   let prev_out = ref None in
+  (* which property a wrong step speaks about: plain iteration from the start (no seek so far) is C04's subject and,
+     being the trivial history, C05's too; once the history contains a seek, or for get / get_prefix / get_range
+     iterators, it is C05's alone *)
+  let sought = ref false in
+  let tag () = if k = Rd.Iter && not !sought then "[C04,C05]" else "[C05]" in
   (try
      List.iteri (fun nstep op ->
+       (match op with Rd.Seek _ -> sought := true | Rd.Next -> ());
        let (ie, intact) = Rd.impl_step it op in
        ignore intact;
        let me = (match !mit with
@@ -112,7 +118,7 @@ let run_case acc ~(family : (string * string) list list) ~(use_readers : bool) (
               | Rd.Next -> let (mi', e) = merger_next mf ds mi in mit := Some mi';
                 (match e with Some (a, b) -> Some (string_of_nl a, string_of_nl b) | None -> None))) in
        if me <> ie then begin
-         fail acc ~kind:"model_mismatch" ~what:"[C04,C05] merger iterator step result" (JO [ "case", case (); "step", JI nstep; "impl", JS (show_e ie); "model", JS (show_e me) ]);
+         fail acc ~kind:"model_mismatch" ~what:(tag () ^ " merger iterator step result") (JO [ "case", case (); "step", JI nstep; "impl", JS (show_e ie); "model", JS (show_e me) ]);
        end;
        (* specification: entries with equal keys come in the order the dupsort function defines *)
        (match op, ie with
@@ -131,17 +137,17 @@ let run_case acc ~(family : (string * string) list list) ~(use_readers : bool) (
           | None, None -> ()
           | Some (ik, iv), Some (sk, _) ->
             if ik <> sk then begin
-              fail acc ~kind:"spec_violation" ~what:(Printf.sprintf "[C04,C05] merger returned key %s where the merged content gives %s" (show_e ie) (show_e se)) (JO [ "case", case (); "step", JI nstep ]);
+              fail acc ~kind:"spec_violation" ~what:(Printf.sprintf "%s merger returned key %s where the merged content gives %s" (tag ()) (show_e ie) (show_e se)) (JO [ "case", case (); "step", JI nstep ]);
               raise Exit end;
             let atoms = List.assoc ik spec_vals in
             if o.merge then begin
               if split_atoms iv <> atoms then begin
-                fail acc ~kind:"spec_violation" ~what:"[C04,C05] merged value is not the fold of exactly the values held for that key (each once)"
+                fail acc ~kind:"spec_violation" ~what:(tag () ^ " merged value is not the fold of exactly the values held for that key (each once)")
                   (JO [ "case", case (); "step", JI nstep; "key", jbytes ik; "value", jbytes iv ]); raise Exit end
             end else if not (List.mem iv atoms) then begin
               fail acc ~kind:"spec_violation" ~what:"[C04] entry emitted that no source holds" (JO [ "case", case (); "step", JI nstep; "key", jbytes ik; "value", jbytes iv ]); raise Exit end
           | _ ->
-            fail acc ~kind:"spec_violation" ~what:(Printf.sprintf "[C04,C05] merger returned %s where the merged content gives %s" (show_e ie) (show_e se)) (JO [ "case", case (); "step", JI nstep ]);
+            fail acc ~kind:"spec_violation" ~what:(Printf.sprintf "%s merger returned %s where the merged content gives %s" (tag ()) (show_e ie) (show_e se)) (JO [ "case", case (); "step", JI nstep ]);
             raise Exit)
        end else if ie = None && se <> None then failed := true) ops
    with Exit -> ());
